@@ -36,6 +36,7 @@ func vfHostile(tag string) interface{} {
 }
 
 func vfC11Decode(typ string, members, own []string) {
+	vfHangCheck(true)
 	if vfParam("full", 0) == 0 {
 		members = own
 	}
